@@ -178,6 +178,15 @@ pub fn shape_of(d: &CaseDesc, fd: &FieldDesc) -> String {
     )
 }
 
+/// element indices to visit: all of them, or {0, 1, K-1} in the minimal (interpreter) workload
+fn elem_indices(count: u32, tiny: bool) -> Vec<u32> {
+    if !tiny || count <= 3 {
+        (0..count).collect()
+    } else {
+        vec![0, 1, count - 1]
+    }
+}
+
 fn obs_of<R>(r: Result<R, String>, f: impl FnOnce(R) -> Obs) -> Obs {
     match r {
         Ok(v) => f(v),
@@ -205,7 +214,7 @@ pub fn mon_get(s: &mut dyn Subject, ctx: &mut Ctx, filt: &dyn Fn(&CaseDesc, &Fie
         }
         ctx.st.fields += 1;
         ctx.st.shape(shape_of(d, fd));
-        for i in 0..fd.count() {
+        for i in elem_indices(fd.count(), ctx.cfg.tiny) {
             let pos = fd.positions(i);
             let fmask = pos_mask(&pos);
             let (raws, exh) = gen::raws(bw, fmask, &mut rng, ctx.cfg, ctx.cfg.n_rand_raw);
@@ -248,10 +257,11 @@ pub fn mon_get(s: &mut dyn Subject, ctx: &mut Ctx, filt: &dyn Fn(&CaseDesc, &Fie
             }
             // isolation twins: flipping any bit outside the field must not change the result
             let mut toggled = 0u128;
-            let mut twin_raws: Vec<u128> = vec![0, bm, fmask & bm, !fmask & bm];
+            let mut twin_raws: Vec<u128> = if ctx.cfg.tiny { vec![rng.bits128() & bm] } else { vec![0, bm, fmask & bm, !fmask & bm] };
             for _ in 0..ctx.cfg.n_twin_raws {
                 twin_raws.push(rng.bits128() & bm);
             }
+            let twin_step = if ctx.cfg.tiny { (bw / 6).max(1) } else { 1 };
             let mut twins_ok = 0u64;
             for &r in &twin_raws {
                 let base = obs_of(
@@ -262,7 +272,7 @@ pub fn mon_get(s: &mut dyn Subject, ctx: &mut Ctx, filt: &dyn Fn(&CaseDesc, &Fie
                     |o| o,
                 );
                 for k in 0..bw {
-                    if (fmask >> k) & 1 == 1 || bad {
+                    if (fmask >> k) & 1 == 1 || bad || (k % twin_step != 0 && k != bw - 1) {
                         continue;
                     }
                     let r2 = r ^ (1u128 << k);
@@ -289,7 +299,7 @@ pub fn mon_get(s: &mut dyn Subject, ctx: &mut Ctx, filt: &dyn Fn(&CaseDesc, &Fie
             ctx.st.field_bits_toggled += (seen1 & seen0).count_ones() as u64;
             ctx.st.outside_bits_total += outside.count_ones() as u64;
             ctx.st.outside_bits_toggled += (toggled & outside).count_ones() as u64;
-            if distinct && (twins_ok > 0 || outside == 0) && !bad {
+            if distinct && (twins_ok > 0 || outside == 0 || ctx.cfg.tiny) && !bad {
                 ctx.st.nontrivial += 1;
             }
             if fi == 0 && i == 0 && !raws.is_empty() {
@@ -329,15 +339,20 @@ pub fn mon_put(s: &mut dyn Subject, ctx: &mut Ctx, filt: &dyn Fn(&CaseDesc, &Fie
         }
         ctx.st.fields += 1;
         ctx.st.shape(shape_of(d, fd));
-        for i in 0..fd.count() {
+        for i in elem_indices(fd.count(), ctx.cfg.tiny) {
             let pos = fd.positions(i);
             let fmask = pos_mask(&pos);
-            let (choices, vexh) = gen::vals(fd, &mut rng, ctx.cfg, ctx.cfg.n_rand_val, true);
+            let (mut choices, vexh) = gen::vals(fd, &mut rng, ctx.cfg, ctx.cfg.n_rand_val, true);
+            if ctx.cfg.tiny && choices.len() > 6 {
+                let last = choices[choices.len() - 1];
+                choices.truncate(5);
+                choices.push(last);
+            }
             let lg = 128 - (choices.len() as u128).leading_zeros();
             let (raws, rexh) = if bw <= ctx.cfg.exh_raw_bits && bw + lg <= ctx.cfg.exh_pair_bits {
                 ((0..=mask(bw)).collect::<Vec<u128>>(), true)
             } else {
-                (gen::raws_small(bw, fmask, &mut rng, ctx.cfg.n_rand_val / 2 + 4), false)
+                (gen::raws_small(bw, fmask, &mut rng, if ctx.cfg.tiny { 0 } else { ctx.cfg.n_rand_val / 2 + 4 }), false)
             };
             if rexh && vexh {
                 *ctx.st.exhaustive_spaces.entry(format!("put: all raw x all values on a {}-bit base", bw)).or_insert(0) += 1;
@@ -489,7 +504,7 @@ pub fn mon_array(s: &mut dyn Subject, ctx: &mut Ctx, filt: &dyn Fn(&CaseDesc, &F
         // --- element isolation ---
         if fd.writable && disjoint {
             let n_choices = fd.n_choices();
-            for round in 0..(3 + ctx.cfg.n_rand_val / 8) {
+            for round in 0..(if ctx.cfg.tiny { 1 } else { 3 + ctx.cfg.n_rand_val / 8 }) {
                 let r0 = match round {
                     0 => 0,
                     1 => bm,
@@ -503,7 +518,7 @@ pub fn mon_array(s: &mut dyn Subject, ctx: &mut Ctx, filt: &dyn Fn(&CaseDesc, &F
                     reg.write(p, fd.enc(c).1);
                 }
                 let start = reg.to_raw();
-                for i in 0..count {
+                for i in elem_indices(count, ctx.cfg.tiny) {
                     let cs: [u128; 4] = [0, n_choices.wrapping_sub(1), rng.next128(), rng.next128()];
                     let mut wrote = false;
                     for (ci, &c) in cs.iter().enumerate() {
@@ -537,7 +552,7 @@ pub fn mon_array(s: &mut dyn Subject, ctx: &mut Ctx, filt: &dyn Fn(&CaseDesc, &F
                                     wrote = true;
                                 }
                                 if fd.readable {
-                                    for j in 0..count {
+                                    for j in elem_indices(count, ctx.cfg.tiny) {
                                         let o = obs_of(guard::run(|| s.get(fi, j as usize)), |o| o);
                                         ctx.eval_obs(OP_GET, fi, j as usize, st, 3, &o);
                                         let e = expect_obs(fd, exp_reg.read(&all_pos[j as usize]));
@@ -579,8 +594,8 @@ pub fn mon_array(s: &mut dyn Subject, ctx: &mut Ctx, filt: &dyn Fn(&CaseDesc, &F
             }
         }
         // --- bounds ---
-        let oob = gen::oob_indices(count, stride, d.storage_width);
-        let probe_raws = [0u128, bm, rng.bits128() & bm];
+        let oob = gen::oob_indices(count, stride, d.storage_width, ctx.cfg.tiny);
+        let probe_raws: Vec<u128> = if ctx.cfg.tiny { vec![rng.bits128() & bm] } else { vec![0u128, bm, rng.bits128() & bm] };
         let mut panics_seen = [0u32; 3];
         for &idx in &oob {
             for &r in &probe_raws {
@@ -643,7 +658,8 @@ pub fn mon_array(s: &mut dyn Subject, ctx: &mut Ctx, filt: &dyn Fn(&CaseDesc, &F
                 }
             }
         }
-        let bounds_ok = (!fd.readable || panics_seen[0] >= 3) && (!fd.writable || (panics_seen[1] >= 3 && panics_seen[2] >= 3));
+        let need = if ctx.cfg.tiny { 1 } else { 3 };
+        let bounds_ok = (!fd.readable || panics_seen[0] >= need) && (!fd.writable || (panics_seen[1] >= need && panics_seen[2] >= need));
         if bounds_ok && every_elem_written && !bad {
             ctx.st.nontrivial += 1;
         }
@@ -880,7 +896,7 @@ pub fn mon_hist(s: &mut dyn Subject, ctx: &mut Ctx, opts: &HistOpts) {
         let mut pairs = 0;
         'outer: for a in 0..n {
             for b in (a + 1)..n {
-                if pairs >= 64 {
+                if pairs >= (if ctx.cfg.tiny { 4 } else { 64 }) {
                     break 'outer;
                 }
                 pairs += 1;
@@ -973,7 +989,7 @@ pub fn mon_builder(s: &mut dyn Subject, ctx: &mut Ctx) {
         ctx.st.shape(shape_of(d, &d.fields[fi]));
     }
     let start = d.default.unwrap_or(0);
-    let n_tuples = 6 + ctx.cfg.n_rand_val;
+    let n_tuples = if ctx.cfg.tiny { 3 } else { 6 + ctx.cfg.n_rand_val };
     let mut results = std::collections::HashSet::new();
     let mut bad = false;
     for t in 0..n_tuples {
@@ -1060,7 +1076,7 @@ pub fn mon_consts(s: &mut dyn Subject, ctx: &mut Ctx) {
     let mut rng = Rng::from_str(ctx.cfg.seed ^ 0x06, d.id);
     ctx.st.fields += 1;
     ctx.st.shape(format!("base u{} storage u{} default={}", bw, d.storage_width, d.default.is_some()));
-    let (raws, exh) = gen::raws(bw, 0, &mut rng, &Cfg { exh_raw_bits: ctx.cfg.exh_raw_bits.max(16), ..ctx.cfg.clone() }, ctx.cfg.n_rand_raw * 4);
+    let (raws, exh) = gen::raws(bw, 0, &mut rng, &Cfg { exh_raw_bits: if ctx.cfg.tiny { ctx.cfg.exh_raw_bits } else { ctx.cfg.exh_raw_bits.max(16) }, ..ctx.cfg.clone() }, ctx.cfg.n_rand_raw * 4);
     if exh {
         *ctx.st.exhaustive_spaces.entry(format!("raw round trip: all 2^{} values", bw)).or_insert(0) += 1;
     }
@@ -1223,7 +1239,7 @@ pub fn mon_enum(e: &dyn EnumSubject, ctx: &mut Ctx) {
     ctx.st.fields += 1;
     let storage_cls = if [8, 16, 32, 64].contains(&w) { "native" } else { "arb" };
     ctx.st.shape(format!("u{}|{}|{}", w, storage_cls, if d.exhaustive { "exhaustive" } else if d.conditional { "conditional" } else { "non-exhaustive" }));
-    let exh = w <= 16;
+    let exh = w <= if ctx.cfg.tiny { 5 } else { 16 };
     let xs: Vec<u128> = if exh {
         (0..=m).collect()
     } else {
@@ -1236,6 +1252,13 @@ pub fn mon_enum(e: &dyn EnumSubject, ctx: &mut Ctx) {
             v.push(x & 0xff);
             v.push(x & 0xffff);
             v.push(x & 0xffff_ffff);
+            // aliases of the discriminant: one extra bit set / cleared at every position
+            for k in 0..w {
+                v.push(x ^ (1u128 << k));
+            }
+            v.push(x.wrapping_add(0x100) & m);
+            v.push(x.wrapping_add(0x1_0000) & m);
+            v.push(x.wrapping_add(0x1_0000_0000) & m);
         }
         for k in 0..w {
             v.push(1u128 << k);
@@ -1245,6 +1268,13 @@ pub fn mon_enum(e: &dyn EnumSubject, ctx: &mut Ctx) {
         }
         v.sort();
         v.dedup();
+        if ctx.cfg.tiny && v.len() > 48 {
+            let step = v.len() / 48 + 1;
+            v = v.into_iter().step_by(step).collect();
+            v.extend(d.discrs.iter().take(8));
+            v.sort();
+            v.dedup();
+        }
         v
     };
     if exh {
